@@ -910,7 +910,7 @@ func NamedType(na px.URI, name string, value px.Value) px.Type {
 	} else if h, ok := value.(px.OrderedMap); ok {
 		ta = createMetaType2(na, name, `Object`, ``, h)
 	} else {
-		panic(fmt.Sprintf(`cannot create object from a %s`, dt.String()))
+		panic(fmt.Errorf(`cannot create object from a %s`, value.PType()))
 	}
 	return ta
 }
